@@ -194,6 +194,17 @@ func DegenerateShapes(r *R) []Degenerate {
 		f.Services = []*ir.Service{svc}
 		add("typed_headers_with_odd_examples", f)
 	}
+	// 11b''. path templates with stray, doubled or nested braces (each its own request, so that one refusal does not
+	// hide the others): whatever a generator makes of them, it must say so with files or an error message
+	for i, tpl := range []string{"/archive}/{user_id}/{post_id}", "/users/{user_id}}/posts/{post_id}", "/users/{{user_id}}/posts/{{post_id}}",
+		"/users/{user_id:[0-9]{4}}/posts/{post_id}", "/users/{user_id", "/users/user_id}/x", "/users/{}/x/{post_id}", "/}{/{user_id}"} {
+		f := mk(fmt.Sprintf("braces%d", i), fmt.Sprintf("d.braces%d", i))
+		f.Messages = []*ir.Message{{Name: "Q", Fields: []*ir.Field{{Name: "user_id", Number: 1, Kind: "string"}, {Name: "post_id", Number: 2, Kind: "string"}, {Name: "note", Number: 3, Kind: "string"}}}}
+		svc := svcFor(fmt.Sprintf("d.braces%d", i), "Q", "Q")
+		svc.Methods[0].Config = &ir.HTTPConfig{Path: tpl, Method: "POST"}
+		f.Services = []*ir.Service{svc}
+		add(fmt.Sprintf("odd_braces_in_path#%d", i), f)
+	}
 	// 11c. enums with a single value (only the zero entry) and the dynamically typed well-known types (whose
 	// NullValue enum has one value too) in a response: directly, through a singular child, in a map value
 	{
